@@ -127,6 +127,18 @@ def case_text(idx, disable_ids, fr_items, ret_lines, groups, ids, build_code, qu
            coq_groups(groups, ids), z(build_code), qs))
 
 
+def case_text_grid(idx, disable_ids, fr_items, ret_lines, groups, ids, build_code, nl, name_ids, exc, extra):
+  """Compact case: the query grid is enumerated inside Coq (Cases.enum_queries); `exc` lists (index, code, line')
+  for the answers that differ from the default (1, line); `extra` are explicit queries (other-file errors)."""
+  ex = "; ".join("(%d%%nat, (%s, %s))" % (i, z(c), z(l2)) for i, c, l2 in exc)
+  qs = "; ".join("((%s, %d%%N, %s, %s), (%s, %s))" % (z(l), n, "true" if r else "false",
+                                                      "true" if sf else "false", z(c), z(l2))
+                 for l, n, r, sf, c, l2 in extra)
+  return ("Definition case_%d : list nat :=\n  run_grid [%s]%%N %s %s\n  %s\n  %s %d%%nat [%s]%%N\n  [%s]\n  [%s].\n" %
+          (idx, "; ".join(map(str, disable_ids)), coq_pairs(fr_items), coq_zlist(ret_lines),
+           coq_groups(groups, ids), z(build_code), nl, "; ".join(map(str, name_ids)), ex, qs))
+
+
 HEADER = ("From Coq Require Import ZArith List NArith Bool.\n"
           "From PV Require Import Directors.Model Directors.Cases.\n"
           "Import ListNotations.\nOpen Scope Z_scope.\n")
